@@ -28,7 +28,7 @@ PROPS["C07"] = {
                     "crypto/ecdh, x/crypto/curve25519, crypto/ed25519 are independent of the code under test"],
     "units": [
         {
-            "pkg": "primitives/x25519", "configs": ALL4,
+            "pkg": "primitives/x25519", "configs": ALL4Q,
             "tests": {
                 "TestC07ScalarMult": T(2000, 100000),
                 "FuzzC07ScalarMult": FUZZ(60, configs=["default"]), "FuzzC07EdPublicAny": FUZZ(60, configs=["default"]),
@@ -42,7 +42,7 @@ PROPS["C07"] = {
             },
         },
         {
-            "pkg": "curve", "configs": ALL4,
+            "pkg": "curve", "configs": ALL4Q,
             "tests": {
                 "TestC07MontMul": T(1500, 60000),
                 "TestC07MontEqual": T(3000, 200000),
